@@ -138,3 +138,59 @@ Lemma setattr_ok : forall p, In p setattr_stat_pairs -> forall a param t,
   field_ity "SetattrIn" (fst p) = Some t -> a (fst p) < 2 ^ bits t ->
   apply_conv rust_conv_stat_of_setattr a param (snd p) = a (fst p).
 Proof. apply (widen_all "SetattrIn"). vm_compute. reflexivity. Qed.
+
+(* ------------------------------------------------------------- twin entry points of the attribute conversion
+   From<stat64> for Attr (every GETATTR / SETATTR reply) and From<Entry> for EntryOut (LOOKUP, CREATE, MKNOD,
+   READDIRPLUS ... replies) reach the wire without going through the call sites of Attr::with_flags that the
+   theorems above are about; they are translated on their own and meet the same specification. *)
+Lemma attr_from_stat_ok : forall p, In p attr_stat_pairs -> forall st param,
+  exists t, field_ity "Attr" (fst p) = Some t /\
+            apply_conv rust_conv_attr_from_stat st param (fst p) = st (snd p) mod 2 ^ bits t.
+Proof. apply (narrow_all "Attr" rust_conv_attr_from_stat). vm_compute. reflexivity. Qed.
+
+Lemma attr_from_stat_flags : forall st param,
+  apply_conv rust_conv_attr_from_stat st param "flags" = 0.
+Proof. intros. vm_compute. reflexivity. Qed.
+
+(* type of a leaf (nested path such as "attr.ino") of a crate struct *)
+Definition leaf_ity (sname path : string) : option ity :=
+  match struct_leaves rust_structs sname with
+  | None => None
+  | Some ls =>
+    match find (fun l => String.eqb (l_path l) path) ls with
+    | Some l => Some (l_width l, l_signed l)
+    | None => None
+    end
+  end.
+
+Lemma narrow_all_leaves sname narrow pairs :
+  forallb (fun p => narrow_ok narrow p &&
+                    match leaf_ity sname (fst p) with
+                    | Some t => ity_eqb (dst_ty narrow (fst p)) t | None => false end) pairs = true ->
+  forall p, In p pairs -> forall src param,
+    exists t, leaf_ity sname (fst p) = Some t /\
+              apply_conv narrow src param (fst p) = src (snd p) mod 2 ^ bits t.
+Proof.
+  intros H p Hp src param. rewrite forallb_forall in H. specialize (H _ Hp).
+  apply andb_prop in H. destruct H as [H1 H2].
+  destruct (leaf_ity sname (fst p)) as [t|]; [|discriminate].
+  exists t. split; [reflexivity|].
+  rewrite (narrow_sound _ _ _ _ H1).
+  unfold ity_eqb in H2. apply andb_prop in H2. destruct H2 as [Hw _]. apply N.eqb_eq in Hw.
+  unfold bits. rewrite Hw. reflexivity.
+Qed.
+
+(* every leaf of the reply structure = the paired field of the Entry (timeouts split into seconds / nanoseconds,
+   the stat64 under "attr."), reduced to the wire width *)
+Lemma entry_out_ok : forall p, In p entry_out_pairs -> forall e param,
+  exists t, leaf_ity "EntryOut" (fst p) = Some t /\
+            apply_conv rust_conv_entry_out e param (fst p) = e (snd p) mod 2 ^ bits t.
+Proof. apply (narrow_all_leaves "EntryOut" rust_conv_entry_out). vm_compute. reflexivity. Qed.
+
+Definition entry_out_fields_covered : bool :=
+  match struct_leaves rust_structs "EntryOut" with
+  | None => false
+  | Some ls => forallb (fun l => existsb (fun p => String.eqb (l_path l) (fst p)) entry_out_pairs) ls
+  end.
+Lemma entry_out_covered : entry_out_fields_covered = true.
+Proof. vm_compute. reflexivity. Qed.
